@@ -172,6 +172,15 @@ def check_case(case):
         back_t = tsref.instant(back.year, back.month, back.day, back.hour, back.minute, back.second, back.microsecond)
         if out == exp and back_t != tsref.parse(exp)[0]:
             fails.append(("reread-instant", "%r read back as %r" % (out, back)))
+        # the value the library holds, copied the way the library itself copies values (new_version deep-copies content; a dict
+        # version keeps what it gets): the copy is written like the original
+        if case["form"] not in ("plain-format",) and out == exp:
+            import copy
+            for how, fn in (("deepcopy", copy.deepcopy), ("copy", copy.copy)):
+                c, exc = core.guarded(fn, parsed)
+                o3, exc3 = core.guarded(utils.format_datetime, c) if exc is None else (None, exc)
+                if exc3 is not None or o3 != out:
+                    fails.append(("copy-written-differently:" + how, "%s of the parsed value of %r (%s/%s) is written %r, the value itself %r" % (how, val, prec, cons, o3 if exc3 is None else core.fmt_exc(exc3), out)))
     return fails
 
 
